@@ -394,6 +394,11 @@ func userSnapTerm(fn *ssa.Function, R *Renderer, U ssa.Value) (string, bool) {
 	if strings.HasSuffix(s, ".SnapIndx") {
 		return s, true
 	}
+	if fn.Parent() != nil {
+		if _, _, ok := capturedUserSnapIndex(fn, U); ok {
+			return s, true
+		}
+	}
 	p, ok := U.(*ssa.Phi)
 	if !ok {
 		return s, false
@@ -419,6 +424,57 @@ func userSnapTerm(fn *ssa.Function, R *Renderer, U ssa.Value) (string, bool) {
 		}
 	}
 	return s, true
+}
+
+// holeHelper handles a punch site whose file is a parameter of its function: finds the index
+// parameter the strict guard is on and checks every caller passes (files[x], x) (or a paired
+// phi).  Returns the number of caller sites.
+func (c *Ctx) holeHelper(rule string, fn *ssa.Function, R *Renderer, site ssa.Instruction, filePar *ssa.Parameter, key, where string) int {
+	fi, gi := -1, -1
+	var Uval ssa.Value
+	for i, p := range fn.Params {
+		if p == filePar {
+			fi = i
+			continue
+		}
+		if !isIntType(p.Type()) || gi >= 0 {
+			continue
+		}
+		var U ssa.Value
+		guard := strictUserSnapGuard(fn, R, p, &U, false)
+		if len(Query{Fn: fn, IsSite: func(in ssa.Instruction) bool { return in == site }, GenEdge: guard}.Run()) == 0 && U != nil {
+			gi, Uval = i, U
+		}
+	}
+	if fi < 0 || gi < 0 {
+		c.Bad(rule, key+" | target derived from guarded index", where, "the file passed to the punch is a parameter and no integer parameter is strictly compared with the latest user snapshot index on every path", nil)
+		return 0
+	}
+	us, _ := userSnapTerm(fn, R, Uval)
+	c.OK(rule, key+" | guard on the index parameter", where, fmt.Sprintf("every path passes the strict edge $%d > %s; callers must pass the file of that index as $%d", gi, us, fi), true)
+	ncall := 0
+	for _, caller := range pkgFuncs(c.P, "replica") {
+		CR := NewRenderer(caller)
+		for ci, call := range CallsTo(caller, FnName(fn)) {
+			ncall++
+			args := call.(*ssa.Call).Call.Args
+			k2 := fmt.Sprintf("%s | caller %s[%d] passes (files[x], x)", key, FnName(caller), ci)
+			if fi >= len(args) || gi >= len(args) {
+				c.Bad(rule, k2, c.P.InstrPos(call), "argument list does not match", nil)
+				continue
+			}
+			G, how := pairedIndex(CR, args[fi])
+			if G != nil && (strip(G) == strip(args[gi]) || sameCellLoads(CR, strip(G), strip(args[gi]))) {
+				c.OK(rule, k2, c.P.InstrPos(call), "file argument is "+how+" of the index argument "+CR.V(args[gi]), true)
+			} else {
+				c.Bad(rule, k2, c.P.InstrPos(call), "the file passed ("+CR.V(args[fi])+") is not the file of the index passed ("+CR.V(args[gi])+"): the callee's guard tests a different index than the file that is punched", nil)
+			}
+		}
+	}
+	if ncall == 0 {
+		c.Bad(rule, key+" | callers", where, "no caller found for the punching helper", nil)
+	}
+	return ncall
 }
 
 func ruleC06Hole(c *Ctx) {
@@ -454,6 +510,16 @@ func ruleC06Hole(c *Ctx) {
 				continue
 			}
 			G, how := pairedIndex(R, F)
+			if par, isPar := strip(F).(*ssa.Parameter); G == nil && isPar && fn.Parent() == nil {
+				// helper taking (file, index): the guard is on the index parameter; every caller
+				// must pass a file derived from the index it passes
+				n--
+				n += c.holeHelper(rule, fn, R, site, par, key, where)
+				if !isFalloc {
+					c.Guard(rule, fn, []ssa.Instruction{site}, fmt.Sprintf("punch[%d]", i), nil, atom("hole punching enabled", c.P.boolCallAtom("replica.shouldCreateHoles")))
+				}
+				continue
+			}
 			if G == nil {
 				c.Bad(rule, key+" | target derived from guarded index", where, "the file passed to the punch ("+R.V(F)+") is neither files[G] nor a phi paired with an index phi", nil)
 				continue
@@ -470,6 +536,27 @@ func ruleC06Hole(c *Ctx) {
 				}
 				us, _ := userSnapTerm(ufn, UR, Uval)
 				c.OK(rule, key+" | target derived from guarded index", where, fmt.Sprintf("file is %s of G=%s; every path passes the strict edge G > %s", how, R.V(G), us), true)
+				// the site lives in a function literal: it stands for every call of that literal
+				if fn.Parent() != nil {
+					calls := closureCalls(fn)
+					n += len(calls) - 1
+					if par, done, ok := capturedUserSnapIndex(fn, Uval); ok {
+						for ci, call := range calls {
+							call := call
+							k2 := fmt.Sprintf("%s | call[%d] of the punching literal | latest-user-snapshot scan complete", key, ci)
+							if call.Parent() != par {
+								c.Bad(rule, k2, c.P.InstrPos(call), "the literal is called from another literal: not followed", nil)
+								continue
+							}
+							ws2 := Query{Fn: par, IsSite: func(in ssa.Instruction) bool { return in == call }, GenEdge: done}.Run()
+							if len(ws2) == 0 {
+								c.OK(rule, k2, c.P.InstrPos(call), "the scan over UserCreatedSnap ran to its end before the literal is called", true)
+							} else {
+								c.Bad(rule, k2, c.P.InstrPos(call), "the loop computing the latest user-created snapshot index can be left early: an older index may be used and a later user snapshot punched", c.witness(ws2[0]))
+							}
+						}
+					}
+				}
 				// U complete before use when it is a loop-computed local of a separate loop
 				if p, ok := strip(Uval).(*ssa.Phi); ok {
 					if loopDone := separateLoopDoneEdge(fn, R, p); loopDone != nil {
@@ -485,7 +572,7 @@ func ruleC06Hole(c *Ctx) {
 				c.Bad(rule, key+" | target derived from guarded index", where, fmt.Sprintf("no dominating strict guard `%s > <latest user snapshot index>` for the file being punched (file is %s of that index): the guard tests a different index than the file that is punched", R.V(G), how), c.witnessOr(ws))
 			}
 			if !isFalloc {
-				c.Guard(rule, fn, []ssa.Instruction{site}, fmt.Sprintf("punch[%d]", i), nil, atom("hole punching enabled", "replica.shouldCreateHoles()"))
+				c.Guard(rule, fn, []ssa.Instruction{site}, fmt.Sprintf("punch[%d]", i), nil, atom("hole punching enabled", c.P.boolCallAtom("replica.shouldCreateHoles")))
 			}
 		}
 	}
@@ -503,7 +590,7 @@ func ruleC06Hole(c *Ctx) {
 			}
 		}
 	}
-	c.Floor(rule, 18)
+	c.Floor(rule, 12)
 }
 
 // strictUserSnapGuard: predicate for the edges of fn on which `G > U` holds strictly, U being a
@@ -609,7 +696,139 @@ func valueEq(R *Renderer, a, b ssa.Value) bool {
 	if a == b {
 		return true
 	}
-	return false
+	// two loads of one local / captured variable that this function never assigns
+	la, ok1 := a.(*ssa.UnOp)
+	lb, ok2 := b.(*ssa.UnOp)
+	if !ok1 || !ok2 || la.Op != token.MUL || lb.Op != token.MUL || la.X != lb.X {
+		return false
+	}
+	switch la.X.(type) {
+	case *ssa.FreeVar, *ssa.Alloc:
+	default:
+		return false
+	}
+	assigned := false
+	eachInstr(la.Parent(), func(in ssa.Instruction) {
+		if s, ok := in.(*ssa.Store); ok && s.Addr == la.X {
+			assigned = true
+		}
+	})
+	return !assigned
+}
+
+// closureCalls: the call instructions, anywhere in the enclosing top-level function, that invoke
+// the function literal cl.
+func closureCalls(cl *ssa.Function) []ssa.Instruction {
+	root := cl
+	for root.Parent() != nil {
+		root = root.Parent()
+	}
+	var out []ssa.Instruction
+	for _, f := range withClosures(root) {
+		eachInstr(f, func(in ssa.Instruction) {
+			ci, ok := in.(ssa.CallInstruction)
+			if !ok {
+				return
+			}
+			if mc, ok := ci.Common().Value.(*ssa.MakeClosure); ok && mc.Fn == ssa.Value(cl) {
+				out = append(out, in)
+			}
+		})
+	}
+	return out
+}
+
+// liftSites: sites that lie in a function literal are represented by the calls of that literal
+// (for "the site runs only under condition X established by the enclosing function").
+func liftSites(fn *ssa.Function, sites []ssa.Instruction) []ssa.Instruction {
+	var out []ssa.Instruction
+	seen := map[*ssa.Function]bool{}
+	for _, s := range sites {
+		if s.Parent() == fn {
+			out = append(out, s)
+			continue
+		}
+		cl := s.Parent()
+		if seen[cl] {
+			continue
+		}
+		seen[cl] = true
+		for _, c := range closureCalls(cl) {
+			if c.Parent() == fn {
+				out = append(out, c)
+			}
+		}
+	}
+	return out
+}
+
+// capturedUserSnapIndex: U is a load of a variable captured from the enclosing function; every
+// assignment of that variable there is 0 or a range index taken under UserCreatedSnap[i].
+// Returns the exhaustion edge of the scanning loop (in the enclosing function).
+func capturedUserSnapIndex(cl *ssa.Function, U ssa.Value) (par *ssa.Function, done func(*ssa.BasicBlock, int) bool, ok bool) {
+	ld, isLoad := strip(U).(*ssa.UnOp)
+	if !isLoad || ld.Op != token.MUL {
+		return nil, nil, false
+	}
+	fv, isFV := ld.X.(*ssa.FreeVar)
+	if !isFV {
+		return nil, nil, false
+	}
+	a := freeVarAlloc(cl, fv)
+	if a == nil {
+		return nil, nil, false
+	}
+	par = a.Parent()
+	PR := NewRenderer(par)
+	var header *ssa.BasicBlock
+	good := true
+	n := 0
+	for _, f := range withClosures(par) {
+		eachInstr(f, func(in ssa.Instruction) {
+			s, isStore := in.(*ssa.Store)
+			if !isStore {
+				return
+			}
+			if f == par {
+				if s.Addr != ssa.Value(a) {
+					return
+				}
+			} else if fv2, isFV := s.Addr.(*ssa.FreeVar); !isFV || freeVarAlloc(f, fv2) != a {
+				return
+			}
+			v := strip(s.Val)
+			if cst, isC := v.(*ssa.Const); isC && cst.Value != nil && cst.Value.String() == "0" {
+				return
+			}
+			if f != par || !isRangeIndex(v) {
+				good = false
+				return
+			}
+			n++
+			okc := false
+			for _, at := range controlAtoms(par, PR, s.Block()) {
+				if strings.HasSuffix(at, ".UserCreatedSnap[*]") && !strings.HasPrefix(at, "!") {
+					okc = true
+				}
+			}
+			if !okc {
+				good = false
+			}
+			// loop header: block of the range-index increment
+			if b, isB := v.(*ssa.BinOp); isB {
+				header = b.Block()
+			} else if p, isP := v.(*ssa.Phi); isP {
+				header = p.Block()
+			}
+		})
+	}
+	if !good || n == 0 || header == nil {
+		return nil, nil, false
+	}
+	if _, isIf := header.Instrs[len(header.Instrs)-1].(*ssa.If); !isIf {
+		return nil, nil, false
+	}
+	return par, func(bb *ssa.BasicBlock, k int) bool { return bb == header && k == 1 }, true
 }
 
 // separateLoopDoneEdge: if phi p is computed by a range loop of its own (its header block is p's
@@ -846,7 +1065,11 @@ func ruleC07Merge(c *Ctx) {
 		atom("preloaded entry known", "+var(replica.diffDisk).location[*] !=0"),
 		needWLock("server lock (re)taken"),
 		okcall("replica.PreloadLunMap"))
-	c.Guard(rule, fn, CallsTo(fn, "replica.sendToCreateHole"), "request hole", lockOrUnlock,
+	var holes []ssa.Instruction
+	for _, f := range withClosures(fn) {
+		holes = append(holes, CallsTo(f, "replica.sendToCreateHole")...)
+	}
+	c.Guard(rule, fn, liftSites(fn, holes), "request hole", lockOrUnlock,
 		needWLock("server lock (re)taken"))
 	// the private copy: location re-allocated before preload
 	var alloc []ssa.Instruction
